@@ -1,0 +1,71 @@
+//go:build verif
+
+package fasthttp
+
+import (
+	"bufio"
+	"io"
+)
+
+// Thin exports for the /verif correspondence harnesses (properties C34 and C07):
+// the message-body readers and writers of http.go.
+
+func VerifWriteChunk(w *bufio.Writer, b []byte) error { return writeChunk(w, b) }
+
+func VerifWriteBodyChunked(w *bufio.Writer, r io.Reader) error { return writeBodyChunked(w, r) }
+
+func VerifWriteBodyFixedSize(w *bufio.Writer, r io.Reader, size int64) error {
+	return writeBodyFixedSize(w, r, size)
+}
+
+func VerifReadBody(r *bufio.Reader, contentLength, maxBodySize int, dst []byte) ([]byte, error) {
+	return readBody(r, contentLength, maxBodySize, dst)
+}
+
+func VerifAppendBodyFixedSize(r *bufio.Reader, dst []byte, n int) ([]byte, error) {
+	return appendBodyFixedSize(r, dst, n)
+}
+
+func VerifReadBodyChunked(r *bufio.Reader, maxBodySize int, dst []byte) ([]byte, error) {
+	return readBodyChunked(r, maxBodySize, dst)
+}
+
+func VerifReadBodyIdentity(r *bufio.Reader, maxBodySize int, dst []byte) ([]byte, error) {
+	return readBodyIdentity(r, maxBodySize, dst)
+}
+
+func VerifParseChunkSize(r *bufio.Reader) (int, error) { return parseChunkSize(r) }
+
+func VerifRoundUpForSliceCap(n int) int { return roundUpForSliceCap(n) }
+
+func VerifErrEmptyHexNum() error { return errEmptyHexNum }
+
+func VerifErrTooLargeHexNum() error { return errTooLargeHexNum }
+
+// VerifIsBrokenChunk reports whether err is an ErrBrokenChunk value.
+func VerifIsBrokenChunk(err error) bool {
+	_, ok := err.(ErrBrokenChunk)
+	return ok
+}
+
+// VerifIsBodyStreamWritePanic reports whether err is *ErrBodyStreamWritePanic.
+func VerifIsBodyStreamWritePanic(err error) bool {
+	_, ok := err.(*ErrBodyStreamWritePanic)
+	return ok
+}
+
+// VerifGzipBody wraps the response body (stream) for gzip compression, as
+// Response.WriteGzipLevel and the CompressHandler do before writing.
+func VerifGzipBody(resp *Response, level int) { resp.gzipBody(level) }
+
+func VerifCopyZeroAllocWithLimit(w io.Writer, r io.Reader, maxBodySize int) (int64, error) {
+	return copyZeroAllocWithLimit(w, r, maxBodySize)
+}
+
+// VerifCopyBufSize returns the size of the buffers in copyBufPool.
+func VerifCopyBufSize() int {
+	v := copyBufPool.Get()
+	n := len(v.([]byte)) //nolint:forcetypeassert
+	copyBufPool.Put(v)
+	return n
+}
